@@ -72,7 +72,8 @@ theorem sendBatch_accounts (cfg : Cfg) (script : List Srv) (now : Nat) (evs : Li
 /-- every request belongs to a dispatch and carries one sub-batch of that dispatch's split -/
 theorem attempt_origin (cfg : Cfg) (ops : List Op) : ∀ a ∈ attempts cfg (run cfg ops),
     ∃ d ∈ (run cfg ops).disps, a ∈ (d.out cfg).log ∧ a.time = d.time ∧
-      ∃ ch ∈ d.chunks, a.dest = ch.dest ∧ a.events = ch.sub ∧ a.bodyLen = bodyLen ch ∧ ch.sub ≠ [] := by
+      ∃ ch ∈ d.chunks, a.dest = ch.dest ∧ a.events = ch.sub ∧ a.bodyLen = bodyLen ch ∧ ch.sub ≠ [] ∧
+        a.path = requestPath (cfg.esc ch.dest.dataset) := by
   intro a ha
   simp only [attempts, List.mem_flatMap] at ha
   obtain ⟨d, hd, hal⟩ := ha
@@ -85,7 +86,7 @@ dataset) of the batch it was cut from, and every event inside it has exactly tha
 theorem request_to_own_destination (cfg : Cfg) (ops : List Op) : ∀ a ∈ attempts cfg (run cfg ops),
     (∀ e ∈ a.events, e.dest = a.dest) ∧ ∃ d ∈ (run cfg ops).disps, a ∈ (d.out cfg).log ∧ a.dest = d.dest := by
   intro a ha
-  obtain ⟨d, hd, hal, _, ch, hch, h1, h2, _, h4⟩ := attempt_origin cfg ops a ha
+  obtain ⟨d, hd, hal, _, ch, hch, h1, h2, _, h4, _⟩ := attempt_origin cfg ops a ha
   have inv := invA_run cfg ops
   obtain ⟨_, _, _, c4, _, c6⟩ := splitLoop_chunks maxB maxE (by decide) _ d.events ch hch
   have hdest : ch.dest = d.dest := by
@@ -96,6 +97,33 @@ theorem request_to_own_destination (cfg : Cfg) (ops : List Op) : ∀ a ∈ attem
   rw [h2] at he
   rw [h1, hdest]
   exact inv.dkeyed d hd e (c4 e he).1
+
+/-- The full-strength addressing claim: every request goes to the batch endpoint of its events' own
+dataset, `/1/batch/<escaped dataset>` — for every dataset name. -/
+def FullStatement : Prop :=
+  ∀ (cfg : Cfg) (ops : List Op), ∀ a ∈ attempts cfg (run cfg ops), a.path = ownPath (cfg.esc a.dest.dataset)
+
+/-- **Refuted on the code as it is**: `buildRequestURL` joins the escaped dataset with
+`url.JoinPath`, which cleans the path.  An event whose dataset is `..` is sent to `/1`, one whose
+dataset is `.` or empty to `/1/batch` — not to its own dataset's endpoint.  (Reproduced on the
+real `DirectTransmission`: corpus/C26/dot-datasets.ops.) -/
+theorem full_statement_refuted : ¬ FullStatement := by
+  intro h
+  have := h ⟨1, 400, fun _ => false, id⟩ [.enq ⟨0, ⟨"http://a", "k", ".."⟩, some 100, 0⟩ []]
+    ⟨⟨"http://a", "k", ".."⟩, ["1"], [⟨0, ⟨"http://a", "k", ".."⟩, some 100, 0⟩], 101, 0, 0, 0⟩ (by decide)
+  revert this
+  decide
+
+/-- **one_batch_own_destination (path), partial**: whenever the escaped dataset is not one of the
+three names `url.JoinPath` cleans away (empty, `.`, `..`), the request goes to exactly
+`/1/batch/<escaped dataset>`. -/
+theorem request_path_own_dataset_partial (cfg : Cfg) (ops : List Op) : ∀ a ∈ attempts cfg (run cfg ops),
+    cfg.esc a.dest.dataset ≠ "" → cfg.esc a.dest.dataset ≠ "." → cfg.esc a.dest.dataset ≠ ".." →
+    a.path = ownPath (cfg.esc a.dest.dataset) := by
+  intro a ha h1 h2 h3
+  obtain ⟨d, _, _, _, ch, _, hd, _, _, _, hp⟩ := attempt_origin cfg ops a ha
+  rw [hp, ← hd]
+  simp [requestPath, ownPath, h1, h2, h3]
 
 /-- **one_batch_own_destination (exactly once)** — for every destination `k`, the sub-batches cut
 from the batches dispatched for `k`, in order, followed by the sendable events still waiting for
@@ -119,7 +147,7 @@ theorem one_batch_own_destination (cfg : Cfg) (ops : List Op) (k : Dest) :
 /-- **body_le_5MB** — no request body exceeds 5 000 000 bytes. -/
 theorem body_le_5MB (cfg : Cfg) (ops : List Op) : ∀ a ∈ attempts cfg (run cfg ops), a.bodyLen ≤ 5000000 := by
   intro a ha
-  obtain ⟨d, _, _, _, ch, hch, _, _, h3, _⟩ := attempt_origin cfg ops a ha
+  obtain ⟨d, _, _, _, ch, hch, _, _, h3, _, _⟩ := attempt_origin cfg ops a ha
   have := (split_body_le d.events ch hch).1
   have hm : maxB = 5000000 := by decide
   omega
@@ -135,7 +163,7 @@ theorem batch_le_max (cfg : Cfg) (hmb : 0 < cfg.maxBatch) (ops : List Op) :
     intro d hd; have := inv.dsmall d hd; omega
   refine ⟨?_, hd, ?_⟩
   · intro a ha
-    obtain ⟨d, hdm, _, _, ch, hch, _, h2, _, _⟩ := attempt_origin cfg ops a ha
+    obtain ⟨d, hdm, _, _, ch, hch, _, h2, _, _, _⟩ := attempt_origin cfg ops a ha
     obtain ⟨_, _, c3, _⟩ := splitLoop_chunks maxB maxE (by decide) _ d.events ch hch
     have := hd d hdm
     rw [h2]; omega
@@ -153,7 +181,7 @@ theorem oversize_dropped (cfg : Cfg) (ops : List Op) :
   have inv := invA_run cfg ops
   constructor
   · intro a ha e he
-    obtain ⟨d, _, _, _, ch, hch, _, h2, _, _⟩ := attempt_origin cfg ops a ha
+    obtain ⟨d, _, _, _, ch, hch, _, h2, _, _, _⟩ := attempt_origin cfg ops a ha
     obtain ⟨_, _, _, c4, _⟩ := splitLoop_chunks maxB maxE (by decide) _ d.events ch hch
     rw [h2] at he
     have hf := (c4 e he).2
@@ -252,7 +280,7 @@ theorem never_hangs (cfg : Cfg) (ops : List Op) : (run cfg ops).complete = true 
 def dA : Dest := ⟨"http://a", "k", "ds"⟩
 def dB : Dest := ⟨"http://a", "k2", "ds"⟩
 def ev (i : Nat) (d : Dest) (sz : Nat) : Ev := ⟨i, d, some sz, 0⟩
-def cfg0 : Cfg := ⟨3, 400, fun _ => false⟩
+def cfg0 : Cfg := ⟨3, 400, fun _ => false, id⟩
 def retry429 : Srv := fun _ => .http 429 (.dur 1000000000) false []
 
 -- six 1 MB events + an oversize one: two sub-batches (4 + 2), the 1 000 001-byte event dropped
